@@ -143,6 +143,15 @@ def obligations(r, tier, seed):
                     return out
                 first = all_methods(a1, b1)
                 if how == "assign":
+                    # the caller owns what it was given: overwrite every returned Jacobian, then ask again for the SAME values
+                    want0 = [(m_, k.np.array(J_)) for m_, J_ in first]
+                    raw_a, raw_b = [a1[i] for i in range(n)], [b1[i] for i in range(n)]
+                    for _m, J_ in first:
+                        J_[...] = 7
+                    same_values = all_methods(k.pose_from_raw(T, raw_a), k.pose_from_raw(T, raw_b))
+                    for (m_, got), (_, want) in zip(same_values, want0):
+                        k.eq(got, want, "%s for the same values, after the array returned by an earlier call was overwritten by its caller" % m_)
+                if how == "assign":
                     a1[:] = a2.to_array()
                     b1[:] = b2.to_array()
                 else:
